@@ -29,6 +29,12 @@ type C06Plan struct {
 	Lens       []uint64 `json:"lens"` // header kind: object lengths to round-trip
 	Times      []int64  `json:"times"` // header kind: Unix seconds of commits encoded at library level
 	Zones      []int    `json:"zones"` // header kind: zone offsets in seconds
+	// table kind: library-level table objects with many blocks
+	NBlocks  int      `json:"n_blocks,omitempty"`
+	LastRows int      `json:"last_rows,omitempty"`
+	TCols    []string `json:"t_cols,omitempty"`
+	TPK      []uint32 `json:"t_pk,omitempty"`
+	NoIndex  bool     `json:"no_index,omitempty"` // table written without block indices (older writers)
 }
 
 func init() {
@@ -37,6 +43,17 @@ func init() {
 		Rule: "field extremes through `wrgl commit` (message / author name / email of 0, 1, 65535, 65536, 70000 bytes; node clock up to year 2292, before 1970, zone offsets -12h..+14h incl. half hours; rows whose encoding crosses 64 KiB; blocks of 1..255 rows) and the packfile length header over varint boundaries, 32-bit and sampled 64-bit lengths; oracle: error at write time with the branch untouched, or the commit reads back equal; the C06 write monitor checks key = hash, decode and re-encode on every stored object; non-trivial = a field at or over a limit or a clock/zone extreme; distinct by plan hash",
 		Gen: func(seed uint64, tier string) any {
 			r := NewRand(seed)
+			if r.Chance(0.15) {
+				p := C06Plan{Kind: "table", NBlocks: Pick(r, []int{0, 1, 2, 3, 255, 256, 1023, 1024, 1025, 1026, 2047, 2048, 2049, 3000, 5000}), LastRows: Pick(r, []int{1, 2, 254, 255})}
+				if r.Chance(0.3) {
+					p.NBlocks = r.Range(0, 4200)
+				}
+				p.TCols = genColumns(r, 6)
+				for _, j := range r.Perm(len(p.TCols))[:r.Intn(min(3, len(p.TCols))+1)] {
+					p.TPK = append(p.TPK, uint32(j))
+				}
+				return p
+			}
 			if r.Chance(0.25) {
 				p := C06Plan{Kind: "header"}
 				for i := 0; i < 40; i++ {
@@ -83,6 +100,10 @@ func execC06(t *testing.T, raw json.RawMessage, res *Result) {
 	var p C06Plan
 	if err := json.Unmarshal(raw, &p); err != nil {
 		res.Invalid("plan: %v", err)
+		return
+	}
+	if p.Kind == "table" {
+		execC06Table(&p, res)
 		return
 	}
 	if p.Kind == "header" {
@@ -289,4 +310,97 @@ func execC06(t *testing.T, raw json.RawMessage, res *Result) {
 	res.stat("sim_steps", float64(w.Steps))
 	res.stat("sim_time_s", float64(p.ClockHours)*3600)
 	res.Nontrivial = extreme || p.CellLen >= 30000
+}
+
+
+// execC06Table round-trips a table object of NBlocks blocks through
+// Table.WriteTo / SaveTable / GetTable / ReadTableFrom.
+func execC06Table(p *C06Plan, res *Result) {
+	if p.NBlocks < 0 || p.NBlocks > 20000 || p.LastRows < 1 || p.LastRows > 255 || len(p.TCols) > 20 {
+		res.Invalid("plan out of range")
+		return
+	}
+	for _, k := range p.TPK {
+		if int(k) >= len(p.TCols) {
+			res.Invalid("pk out of range")
+			return
+		}
+	}
+	cols := make([]string, len(p.TCols))
+	for i, c := range p.TCols {
+		cols[i] = ToBytes(c)
+	}
+	tbl := objects.NewTable(cols, p.TPK)
+	if p.NBlocks > 0 {
+		tbl.RowsCount = uint32((p.NBlocks-1)*255 + p.LastRows)
+	}
+	for i := 0; i < p.NBlocks; i++ {
+		tbl.Blocks = append(tbl.Blocks, meowSum([]byte(fmt.Sprintf("blk-%d", i))))
+		if !p.NoIndex {
+			tbl.BlockIndices = append(tbl.BlockIndices, meowSum([]byte(fmt.Sprintf("idx-%d", i))))
+		}
+	}
+	var b bytes.Buffer
+	if _, err := tbl.WriteTo(&b); err != nil {
+		res.Violate("table-write-error", "writing a table of %d blocks failed: %v", p.NBlocks, err)
+		return
+	}
+	st := NewStore("T", &World{})
+	st.Monitor = MonitorC06
+	sum, err := objects.SaveTable(st, b.Bytes())
+	if err != nil {
+		res.Invalid("save: %v", err)
+		return
+	}
+	if me := st.TakeMonErrs(); len(me) > 0 {
+		res.Violate("c06-monitor", "%s", me[0])
+		return
+	}
+	got, err := objects.GetTable(st, sum)
+	if err != nil {
+		res.Violate("table-unreadable", "a table of %d blocks (%d rows) was written without error but does not read back: %v", p.NBlocks, tbl.RowsCount, err)
+		return
+	}
+	if !rowsEqual(got.Columns, cols) || got.RowsCount != tbl.RowsCount || len(got.PK) != len(p.TPK) {
+		res.Violate("table-meta-differs", "table meta reads back as cols=%q pk=%v rows=%d, written cols=%q pk=%v rows=%d", got.Columns, got.PK, got.RowsCount, cols, p.TPK, tbl.RowsCount)
+		return
+	}
+	for i := range p.TPK {
+		if got.PK[i] != p.TPK[i] {
+			res.Violate("table-meta-differs", "pk reads back as %v, written %v", got.PK, p.TPK)
+			return
+		}
+	}
+	if len(got.Blocks) != len(tbl.Blocks) {
+		res.Violate("table-blocks-differ", "table written with %d blocks reads back with %d", len(tbl.Blocks), len(got.Blocks))
+		return
+	}
+	for i := range tbl.Blocks {
+		if !bytes.Equal(got.Blocks[i], tbl.Blocks[i]) {
+			res.Violate("table-blocks-differ", "block sum %d reads back as %x, written %x", i, got.Blocks[i], tbl.Blocks[i])
+			return
+		}
+	}
+	if !p.NoIndex {
+		if len(got.BlockIndices) != len(tbl.BlockIndices) {
+			res.Violate("table-block-indices-differ", "table written with %d block-index sums reads back with %d", len(tbl.BlockIndices), len(got.BlockIndices))
+			return
+		}
+		for i := range tbl.BlockIndices {
+			if !bytes.Equal(got.BlockIndices[i], tbl.BlockIndices[i]) {
+				res.Violate("table-block-indices-differ", "block-index sum %d reads back as %x, written %x", i, got.BlockIndices[i], tbl.BlockIndices[i])
+				return
+			}
+		}
+	}
+	var b2 bytes.Buffer
+	if _, err := got.WriteTo(&b2); err != nil || !bytes.Equal(b2.Bytes(), b.Bytes()) {
+		res.Violate("reencode-differs", "re-encoding the table read back (%d blocks) differs from the written bytes (err=%v)", p.NBlocks, err)
+		return
+	}
+	res.stat("sim_steps", float64(p.NBlocks))
+	if p.NBlocks > 1024 {
+		res.probe("table_over_1024_blocks", 1)
+	}
+	res.Nontrivial = p.NBlocks >= 2
 }
